@@ -327,7 +327,7 @@ def r2_delegation(rep, ctx):
         if isinstance(c, ast.Call) and isinstance(c.func, ast.Name) and c.func.id == "ObtainQuantity":
             n += 1
             rep.check(c.args and ast.unparse(c.args[0]) == "unit", "C02.R2", "CreateCopy:%s" % norm(ast.unparse(c)), "the copy's quantity is obtained for the same requested unit", "the copy's quantity is obtained for %s while its value is expressed in `unit`" % (ast.unparse(c.args[0]) if c.args else None), node=c, fn=cc)
-    rep.floor("C02.R2", "delegations checked here", n, 7)
+    rep.floor("C02.R2", "delegations checked here", n, 6)
     # borrowed: Array.GetAbstractValue, FromScalars, IndexAsScalar/ChangingIndex, ConvertToCurrent
     from . import c10, c11, c17
     for fn_, old in ((c10.r7_getvalues, "C10.R7"), (c10.r5_from_scalars, "C10.R5"), (c11.r3_index, "C11.R3"), (c17.r7_convert, "C17.R7")):
@@ -363,7 +363,7 @@ def r3_own_unit(rep, ctx):
         rep.check(ok, "C02.R3", "ConvertScalarValue:%s" % kind, "the %s conversion is reached only when the requested unit differs from the own unit string" % kind,
                   "the %s branch of ConvertScalarValue converts without first comparing the requested unit with the own unit: asking a %s quantity for its own unit %s" % (kind, kind, "raises ValueError (composed-unit lookup)" if kind == "derived" else "goes through a lookup and two conversions instead of returning the stored value"),
                   node=node, fn=fn)
-    rep.floor("C02.R3", "converting returns of ConvertScalarValue", n, 2)
+    rep.floor("C02.R3", "converting returns of ConvertScalarValue", n, 1)
     # Array.GetAbstractValue: own unit returns the stored values (borrowed obligation is in R2); Scalar unit None
     sfn = m.own_method("Scalar", "GetAbstractValue")
     from ..facts import facts as nfacts, none_fact
@@ -493,4 +493,4 @@ def r4_category(rep, ctx):
     ok = any(isinstance(c, ast.Call) and isinstance(c.func, ast.Attribute) and c.func.attr == "CreateCopy" and {k.arg for k in c.keywords} == {"value", "unit"} for c in own_nodes(ch.node))
     n += 1
     rep.check(ok, "C02.R4", "ChangeScalars", "ChangeScalars re-expresses through CreateCopy(value=, unit=), which keeps the category", "ChangeScalars does not go through CreateCopy(value=, unit=)", fn=ch)
-    rep.floor("C02.R4", "re-expression sites", n, 6)
+    rep.floor("C02.R4", "re-expression sites", n, 5)
